@@ -476,7 +476,7 @@ var M = &run.Monitor{
 		need("compared_at_len_4", 1000)
 		for _, e := range []string{"null_over_nonzero", "ptr_reused", "any_merge_map", "any_replace", "slice_shrink", "slice_grow", "slice_stale_elem",
 			"array_short", "array_short_over_nonzero", "map_merge_existing", "map_kept", "struct_kept_nonzero", "struct_member_over_nonzero", "fallback_members"} {
-			need("ev_"+e, 300)
+			need("ev_"+e, 100)
 		}
 		// "whenever it succeeds": the kept fraction must stay high (probe: 95 %)
 		if later := c["steps_compared"] + c["later_step_failed"]; later > 0 && c["steps_compared"]*100 < later*60 {
